@@ -209,8 +209,28 @@ def role_table(ctx, chk, rule, q, best, worst):
     pl = ("attr", st, "player")
 
     def norm(t):
-        # a bound method that is called is a method call
-        return subst(t, lambda x: ("mcall", x[1][1], x[1][2], x[2], x[3]) if x[0] == "apply" and len(x) == 4 and x[1][0] == "attr" else None)
+        # a bound method that is called is a method call; so is Class.method(obj, ...) when no subclass overrides the method
+        def g(x):
+            if x[0] == "apply" and len(x) == 4 and x[1][0] == "attr":
+                if x[1][1][0] == "v" and x[1][1][1] in ctx.prog.classes:
+                    cname, m = x[1][1][1], x[1][2]
+                    if x[2] and not any(m in ctx.prog.classes[c].methods for c in ctx.prog.subclasses(cname, strict=True)):
+                        return ("mcall", x[2][0], m, tuple(x[2][1:]), x[3])
+                    return None
+                return ("mcall", x[1][1], x[1][2], x[2], x[3])
+            return None
+        t = subst(t, g)
+
+        def h(x):
+            # further arguments that fill optional parameters of the node method (a table computed once per call): what the method
+            # does with them is judged with the method (rule 1, in this call context); the role table is about who gets which method
+            if x[0] == "mcall" and x[1] == st and x[2] in (best, worst) and (len(x[3]) > 2 or x[4]) and x[3][:2] == (slist, fl):
+                ms = [ctx.prog.resolve_method(c, x[2]) for c in K.role_classes(ctx).values()]
+                ms = [m for m in ms if m is not None]
+                if ms and all(all(p in m.defaults for p in [q for q in m.params if q != "self"][2:]) for m in ms):
+                    return ("mcall", x[1], x[2], x[3][:2], ())
+            return None
+        return subst(t, h)
     cases = {"Player 1": entry(best), "Player 2": entry(worst), "<any other owner>": acc}
     same = True
     for owner, want in cases.items():
@@ -220,6 +240,16 @@ def role_table(ctx, chk, rule, q, best, worst):
     if same and not any(t == pl for t in _sub(init)):
         chk.ok(rule, f.where(L.node), "Player 1 -> %s, Player 2 -> %s, any other owner -> None (case by case on state.player); stored at state.idx; whole state list" % (best, worst))
         return
+    # a player state whose entry is, under some further condition, something else than what its node method returns
+    for owner, want in list(cases.items())[:2]:
+        got = norm(deep_simp(subst(u, lambda x: C(owner) if x == pl else None)))
+        if got[0] == "ite" and want in (got[2], got[3]):
+            other = got[3] if got[2] == want else got[2]
+            if other[0] == "setitem" and other[1] == acc and other[3] != want[3] and not (other[3][0] == "mcall" and other[3][1] == st):
+                chk.violation(rule, f.where(L.node), "the entry of a %s state is `%s` instead of %s(...) when `%s`: the reported strategy is not the node's optimal-action set" % (
+                    owner, show(other[3])[:80], want[3][2], show(got[1] if got[3] == want else simp(("not", got[1])))[:120]),
+                    expected=show(want), found=show(got)[:200], construct="%s conditional entry" % f.short)
+                return
     # diagnose: which part differs
     calls = [t for t in _sub(u) if t[0] == "mcall" and t[2] in (best, worst)]
     conds = [t for t in _sub(u) if t[0] == "cmp" and t[1] == "=="]
